@@ -1,8 +1,10 @@
 #!/bin/bash
-# confirm every finished later-batch worktree change that is not yet under seeded/
+# confirm every finished later-batch worktree change that is not yet under seeded/ (4 worktrees in parallel;
+# the server tests bind a fixed port: seedconfirm re-runs them alone when another suite was in the way)
 cd /verif
-for wt in /tmp/mut2-C* /tmp/mut3-C* /tmp/mut4-C* /tmp/mut5-C*; do
-  [ -d $wt ] || continue
+one() {
+  wt=$1
+  [ -d $wt ] || exit 0
   pid=$(basename $wt | sed "s/mut[2345]-//")
   for v in C D E F G H I J; do
     lc=$(echo $v | tr 'A-Z' 'a-z')
@@ -11,4 +13,6 @@ for wt in /tmp/mut2-C* /tmp/mut3-C* /tmp/mut4-C* /tmp/mut5-C*; do
     python3 rv/seedconfirm.py $wt $v > /tmp/confirm2-$pid-$v.log 2>&1
     echo "$pid-$lc: $(tail -1 /tmp/confirm2-$pid-$v.log)"
   done
-done
+}
+export -f one
+ls -d /tmp/mut2-C* /tmp/mut3-C* /tmp/mut4-C* /tmp/mut5-C* 2>/dev/null | xargs -P 4 -I{} bash -c 'one {}'
